@@ -513,6 +513,24 @@ pub fn gen_c11(thorough: bool, seed: u64) -> Vec<Episode> {
             eps.push(Episode { n, tys: tys_for(n), ops });
         }
     }
+    // beyond 16 variables (dynamic Lut): a count can exceed 16 there - wherever a count mask, a popcount table
+    // or a loop bound was sized for 'small' tables it shows only here
+    for n in if thorough { vec![15usize, 16, 17, 18] } else { vec![17usize] } {
+        let mut ops: Vec<Value> = vec![json!({"op": "parity", "d": 0, "n": n}), json!({"op": "majority", "d": 0, "n": n})];
+        ops.push(ctor_k("equals", 0, n, n));
+        ops.push(ctor_k("equals", 0, n, n - 1));
+        ops.push(ctor_k("threshold", 0, n, n - 1));
+        if thorough {
+            ops.push(ctor_k("equals", 0, n, 1));
+            ops.push(ctor_k("threshold", 0, n, n / 2 + 1));
+            let c: u64 = r.gen::<u64>() | (1 << n) | (1 << (n - 1));
+            ops.push(json!({"op": "symmetric", "d": 0, "n": n, "cb": crate::exec::bits_of(c), "c_s": c.to_string()}));
+            ops.push(json!({"op": "nth_var", "d": 0, "n": n, "i": n - 1}));
+        }
+        for op in ops {
+            eps.push(Episode { n, tys: "lut", ops: vec![op] });
+        }
+    }
     eps
 }
 
@@ -1907,6 +1925,10 @@ pub fn gen_c19(thorough: bool, _seed: u64) -> Vec<Episode> {
     for n in 0..=12usize {
         eps.push(Episode { n, tys: "both", ops: vec![json!({"op": "rand_begin", "n": n, "threads": 1, "count": 256})] });
         eps.push(Episode { n, tys: "both", ops: vec![json!({"op": "rand_begin", "n": n, "threads": threads, "count": 256})] });
+        // the same after a few draws of other sizes on the same thread (one single-word table, then larger ones,
+        // then a count that is not a multiple of anything)
+        let warm: Vec<usize> = vec![(n + 3) % 7, 7 + n % 6, 9, 2, 2, 2];
+        eps.push(Episode { n, tys: "both", ops: vec![json!({"op": "rand_begin", "n": n, "threads": if n % 2 == 0 { 1 } else { 2 }, "count": 256, "warm": warm})] });
     }
     if thorough {
         for n in [13usize, 14] {
